@@ -2,6 +2,7 @@ import Mathlib.Algebra.Ring.Hom.Defs
 import Mathlib.Algebra.BigOperators.Group.List.Basic
 import Mathlib.Tactic.Ring
 import TenpyModel.C11.Proofs
+import TenpyModel.C11.ExtEnvProofs1
 import TenpyModel.C11.ExtDecide
 /-!
 # C11 extension, helper lemmas 1: `_overlap_no_hc` on a window, the Frobenius product and `dagger`,
@@ -22,14 +23,40 @@ theorem denoteSites_eq (m : MPOM α) (n : Nat) (hn : n ≠ 0) (l r : Nat)
   unfold MPOM.denoteSites winLayers
   rw [if_neg hn, hl, hr]
 
-/-- the fold of `overlapNoHc` is a transfer-matrix run over the zipped window layers -/
+/-- transfer-matrix run with the entries of equal index pair added up after every site -/
+def tmRunC (gram : String → String → α) (cj : α → α)
+    (zs : List (List (Edge Nat α) × List (Edge Nat α))) (v : List ((Nat × Nat) × α)) :
+    List ((Nat × Nat) × α) :=
+  zs.foldl (fun v xy => KVec.compress (MPOM.tmStep gram cj xy.1 xy.2 v)) v
+
+/-- `tmRun_spec` as a weighted sum -/
+theorem tmRun_wsum (gram : String → String → α) (cj : α →+* α) (ra rb : Nat)
+    (zs : List (List (Edge Nat α) × List (Edge Nat α))) (v : List ((Nat × Nat) × α)) :
+    MPOM.vecAt (tmRun gram cj zs v) (ra, rb) =
+      KVec.wsum (fun k => MPOM.frob gram cj (pathsFrom ra (zs.map Prod.fst) k.1)
+        (pathsFrom rb (zs.map Prod.snd) k.2)) v := by
+  rw [tmRun_spec]; rfl
+
+/-- adding up equal index pairs after every site does not change the contraction -/
+theorem tmRunC_eq (gram : String → String → α) (cj : α →+* α) (ra rb : Nat)
+    (zs : List (List (Edge Nat α) × List (Edge Nat α))) (v : List ((Nat × Nat) × α)) :
+    MPOM.vecAt (tmRunC gram cj zs v) (ra, rb) = MPOM.vecAt (tmRun gram cj zs v) (ra, rb) := by
+  induction zs generalizing v with
+  | nil => rfl
+  | cons z zs ih =>
+    have h1 : tmRunC gram cj (z :: zs) v = tmRunC gram cj zs (KVec.compress (MPOM.tmStep gram cj z.1 z.2 v)) := rfl
+    have h2 : tmRun gram cj (z :: zs) v = tmRun gram cj zs (MPOM.tmStep gram cj z.1 z.2 v) := rfl
+    rw [h1, h2, ih, tmRun_wsum, tmRun_wsum, KVec.wsum_compress]
+
+/-- the fold of `overlapNoHc` is a (compressed) transfer-matrix run over the zipped window layers -/
 theorem window_fold (g : String → String → α) (c : α →+* α) (a b : MPOM α) (n la lb ra rb : Nat) :
-    MPOM.vecAt ((List.range n).foldl (fun v i =>
-        MPOM.tmStep g c (a.layers.getD (i % a.L) []) (b.layers.getD (i % b.L) []) v) [((la, lb), 1)]) (ra, rb)
+    MPOM.vecAt ((List.range n).foldl (fun v i => KVec.compress
+        (MPOM.tmStep g c (a.layers.getD (i % a.L) []) (b.layers.getD (i % b.L) []) v)) [((la, lb), 1)]) (ra, rb)
       = MPOM.frob g c (pathsFrom ra (winLayers a n) la) (pathsFrom rb (winLayers b n) lb) := by
   have h := tmRun_spec g c ra rb
     ((List.range n).map (fun i => (a.layers.getD (i % a.L) [], b.layers.getD (i % b.L) []))) [((la, lb), 1)]
-  simp only [tmRun, List.foldl_map, List.map_map, Function.comp_def, List.map_cons, List.map_nil,
+  rw [← tmRunC_eq] at h
+  simp only [tmRunC, List.foldl_map, List.map_map, Function.comp_def, List.map_cons, List.map_nil,
     List.sum_cons, List.sum_nil, one_mul, add_zero] at h
   exact h
 
@@ -93,6 +120,63 @@ theorem frob_right_dagger (gram : String → String → α) (cj : α →+* α) (
     (hgram : ∀ x y, gram (hc x) (hc y) = cj (gram x y)) (s t : Sym α) :
     MPOM.frob gram cj s (Sym.dagger hc cj t) = cj (MPOM.frob gram cj (Sym.dagger hc cj s) t) := by
   rw [← frob_dagger_dagger gram cj hc hgram, symDagger_invol cj hc hcj hhc]
+
+/-! ### scalar multiples, exchange of the arguments -/
+
+theorem frob_smul_left (gram : String → String → α) (cj : α →+* α) (c : α) (s t : Sym α) :
+    MPOM.frob gram cj (Sym.smul c s) t = cj c * MPOM.frob gram cj s t := by
+  simp only [frob_eq_sum, Sym.smul, List.map_map, Function.comp_def, map_mul]
+  rw [← sum_map_mul_left']
+  congr 1
+  apply List.map_congr_left
+  intro p _
+  rw [← sum_map_mul_left']
+  congr 1
+  apply List.map_congr_left
+  intro q _
+  ring
+
+theorem frob_smul_right (gram : String → String → α) (cj : α →+* α) (c : α) (s t : Sym α) :
+    MPOM.frob gram cj s (Sym.smul c t) = c * MPOM.frob gram cj s t := by
+  simp only [frob_eq_sum, Sym.smul, List.map_map, Function.comp_def]
+  rw [← sum_map_mul_left']
+  congr 1
+  apply List.map_congr_left
+  intro p _
+  rw [← sum_map_mul_left']
+  congr 1
+  apply List.map_congr_left
+  intro q _
+  ring
+
+theorem pairW_swap (gram : String → String → α) (cj : α →+* α)
+    (hsym : ∀ x y, gram y x = cj (gram x y)) (x y : OpStr) :
+    pairW gram y x = cj (pairW gram x y) := by
+  induction x generalizing y with
+  | nil => cases y <;> simp [pairW]
+  | cons a x ih =>
+    cases y with
+    | nil => simp [pairW]
+    | cons b y =>
+      simp only [pairW, List.zip_cons_cons, List.foldr_cons, map_mul] at ih ⊢
+      rw [ih, hsym]
+
+/-- `<B|A> = conj <A|B>` for a Hermitian local trace form -/
+theorem frob_swap (gram : String → String → α) (cj : α →+* α) (hcj : ∀ x, cj (cj x) = x)
+    (hsym : ∀ x y, gram y x = cj (gram x y)) (s t : Sym α) :
+    MPOM.frob gram cj t s = cj (MPOM.frob gram cj s t) := by
+  simp only [frob_eq_sum, map_list_sum', List.map_map, Function.comp_def, map_mul, hcj,
+    ← pairW_swap gram cj hsym]
+  have := lsum_comm t s (fun q p => cj q.2 * p.2 * pairW gram q.1 p.1)
+  simp only [lsum] at this
+  rw [this]
+  congr 1
+  apply List.map_congr_left
+  intro p _
+  congr 1
+  apply List.map_congr_left
+  intro q _
+  ring
 
 end window
 
